@@ -140,6 +140,13 @@ var checks = map[string]*check{
 		assumptions: commonAssumptions,
 		req:         []string{"Cmp:-1", "Cmp:0", "Cmp:1"},
 	},
+	"C17": {
+		id: "C17", models: []model{}, trace: "Trace_Core", batch: 4,
+		gen:         func(g *gen.G, thor bool) []gen.Program { return gen.Gob(g, n(thor, 1500, 30000)) },
+		rule:        "GobEncode/GobDecode chains for values of 1..300 words (trailing zero words, all forms, inexact accuracies) x receivers (zero value, precision 0 with a mode, own precision and mode), the encoding/gob stream path, hand-made payloads, and valid encodings corrupted by a single bit flip (first 32 / last 8 bytes), byte overwrite of the attribute bytes, truncation at the start and at the end, extension, and mantissa words overwritten with values >= 10^19, zero or unnormalised; the encoder is validated against the specification's decoder, the decoder against WellFormedGob/DecodeGob; after every decode the receiver is used in an addition",
+		assumptions: commonAssumptions,
+		req:         []string{"GobRoundTrip:wellformed", "GobRoundTrip:prec0", "GobRoundTrip:precn", "GobMutate:corrupt-error", "GobMutate:wellformed", "GobDecode:corrupt-error", "GobStream", "GobEncode:finite"},
+	},
 	"C20": {
 		id: "C20", models: []model{}, trace: "Trace_Core", batch: 4,
 		gen:         func(g *gen.G, thor bool) []gen.Program { return gen.Raw(g, n(thor, 1500, 30000)) },
